@@ -24,6 +24,7 @@ META["text"] += ' (R8 = C06.R3) the test is run with the bound installed from th
 META["text"] += ' R8 also borrows C06.R4: the data of an assertion are the pairs its filter keeps, no others.'
 META["text"] += " R4 also: the running maximum is NumPy's (np.max / np.maximum), under which a p-value that is not a number keeps the contest incomplete."
 META["text"] += ' R1 also: the data functions keep no state between calls. R8 also borrows C07.R3 (the threshold is the sample number of the n_c-th card itself).'
+META["text"] += ' R1 also: the assertion factories do not write into the options dict they are handed. R7 also: configured fields are plain attributes (no property between store and read) and Contest.from_dict copies entries verbatim.'
 
 REL = "shangrla/core/Audit.py"
 
@@ -73,6 +74,7 @@ def run(chk):
     chk.trust("fold skeleton recogniser (sa/cfg.py): an unconditional acc = max(acc, v) in a loop over the whole "
               "collection without break/continue/return computes the maximum over all elements")
     chk.assume("contests dict: the loop key and the loop value denote the same contest")
+    r_factories(chk)
     r_set_p_values(chk)
     r_summarize(chk)
     r_reset(chk)
@@ -93,6 +95,15 @@ def run(chk):
 
 
 # ---------------------------------------------------------------------------
+
+
+def r_factories(chk):
+    # "what its configured test returns": each contest's own options reach its tests; a factory that writes into the options dict
+    # it was handed (the shared default `{}`) configures the next contest as well
+    aud.keeps_no_state(chk, "C09.R1", REL, ["Assertion.make_plurality_assertions", "Assertion.make_supermajority_assertion",
+                                            "Assertion.make_assertions_from_json", "Assertion.make_all_assertions"],
+                       "an assertion factory reads its options")
+    aud.from_dict_verbatim(chk, "C09.R7", REL, "Contest", "completion compares p-values with the risk limit configured for the contest")
 
 
 def r_set_p_values(chk):
